@@ -76,7 +76,8 @@ def cmd_run(args):
 
     # Load merchant rules (with migration check for CSV -> .rules)
     try:
-        rules = _check_merchant_migration(config, config_dir, args.quiet, getattr(args, 'migrate', False))
+        rules = _check_merchant_migration(config, config_dir, args.quiet, getattr(args, 'migrate', False),
+                                          settings_file=args.settings)
     except RulesLoadError as e:
         print(f"Error: {e}", file=sys.stderr)
         sys.exit(1)
